@@ -183,6 +183,10 @@ def main(argv=None):
     timeout = meta.get("timeout", {}).get(tier, 900 if tier == "quick" else 7200)
     budget = meta.get("budget", {}).get(tier, timeout * 0.6)
 
+    if explicit is None:
+        import glob
+        for old in glob.glob(os.path.join(dfmon.VERIF_ROOT, "replays", f"{prop}_{tier}_s{seed}_*.json")):
+            os.remove(old)
     tmpdir = tempfile.mkdtemp(prefix=f"dfmon_{prop}_")
     try:
         results, problems = run_workers(prop, tier, seed, ncases, nworkers, timeout,
